@@ -363,6 +363,23 @@ pub fn run(data: &[u8], ctx: &mut Ctx) -> Outcome {
             check!(ctx, !matches!(r, Ok(true)), "adversarial", "C09/adversarial/transplanted", "a signature made over another subject verifies");
             let r = nopanic!(ctx, forged.verify_signature_from_returning_metadata(&outsider.public), "adversarial", "C09/adversarial/transplanted");
             check!(ctx, r.is_err(), "adversarial", "C09/adversarial/transplanted", "metadata returned for a transplanted signature");
+            // the same with a signature that carries metadata, and with the new subject obscured afterwards
+            let md = SignatureMetadata::new().with_assertion(known_values::NOTE, "genuine note");
+            let signed_other_md = other_subject.add_signature_opt(&outsider.private, outsider.options(), Some(md));
+            let stolen_md = signed_other_md.assertions_with_predicate(known_values::SIGNED)[0].clone();
+            let forged_md = e.add_assertion_envelope(stolen_md).unwrap();
+            let variants: Vec<(&str, Envelope)> = vec![
+                ("plain", forged_md.clone()),
+                ("subject-elided", forged_md.elide_removing_target(&forged_md.subject())),
+                ("subject-encrypted", forged_md.encrypt_subject(&bridge::case_key()).unwrap_or(forged_md.clone())),
+                ("subject-compressed", forged_md.compress_subject().unwrap_or(forged_md.clone())),
+            ];
+            for (vn, v) in variants {
+                let r = nopanic!(ctx, v.has_signature_from(&outsider.public), "adversarial", "C09/adversarial/transplanted");
+                check!(ctx, !matches!(r, Ok(true)), "adversarial", "C09/adversarial/transplanted-metadata", "a signature with metadata made over another subject verifies ({})", vn);
+                let r = nopanic!(ctx, v.verify_signature_from_returning_metadata(&outsider.public), "adversarial", "C09/adversarial/transplanted");
+                check!(ctx, r.is_err(), "adversarial", "C09/adversarial/transplanted-metadata", "metadata returned for a signature with metadata transplanted from another subject ({})", vn);
+            }
             ctx.nontrivial = true;
         }
         2 | 3 | 4 => {
